@@ -1,3 +1,4 @@
+import PlasVerif.Driver.C01
 import PlasVerif.Driver.C19
 /-!
 Line-protocol driver: one request per line `<property> <stream> <payload…>`, one
@@ -9,6 +10,7 @@ open PlasVerif.Driver
 
 def dispatch (line : String) : String :=
   match (line.splitOn " ").filter (· ≠ "") with
+  | "C01" :: r => C01.handle r
   | "C19" :: r => C19.handle r
   | _ => "bad-op"
 
